@@ -174,9 +174,9 @@ class Case:
                     prec_sqrt=self.P.tolist())
 
 
-def gen_full_case(rng, want_rank=None, max_dim=6, tries=30):
+def gen_full_case(rng, want_rank=None, max_dim=6, tries=30, nb_choices=None):
     for _ in range(tries):
-        order = gen_signature(rng, max_dim=max_dim)
+        order = gen_signature(rng, max_dim=max_dim, **(dict(nb_choices=nb_choices) if nb_choices else {}))
         dim = sum(numel(s) for kind, _, s in order if kind == "r")
         rank = want_rank(dim, rng) if want_rank else rng.choice([dim, dim, dim + 1, min(2 * dim, dim + 2)])
         if rank > 2 * dim:
@@ -524,11 +524,8 @@ def stream_integrate(env, rng, counts):
 
 def stream_mixture(env, rng, counts):
     """(g + t).reduce(logaddexp, reals + some ints) and log_normalizer of mixtures; plate sums complete."""
-    c = gen_full_case(rng, want_rank=lambda dim, r: r.choice([dim, dim + 1]), max_dim=5)
-    if not c.batch:
-        order = c.order + [("b", "i", rng.choice([2, 3]))]
-        rng.shuffle(order)
-        c = Case(rng, order, c.rank)
+    c = gen_full_case(rng, want_rank=lambda dim, r: r.choice([dim, dim + 1]), max_dim=4,
+                      nb_choices=(1, 1, 2, 2, 3, 3))
     names = [k for k, _ in c.layout]
     for _ in range(30):
         if c.block_ok(names):
@@ -566,6 +563,20 @@ def stream_mixture(env, rng, counts):
             got = float(tab[key])
             if not fclose(got, want, 1.0, 1e-8):
                 raise CaseFail("C13.mixture-reduce-ne-logsumexp", point=key, expected=str(want), got=str(got))
+        # joint vs sequential: reals first, then the integer inputs one at a time
+        if red_ints:
+            seq = mix.reduce(ops.logaddexp, frozenset(names))
+            ints_order = list(red_ints)
+            rng.shuffle(ints_order)
+            for k in ints_order:
+                seq = seq.reduce(ops.logaddexp, k)
+            if isinstance(seq, (Tensor, Number)):
+                tab2 = c12.table_of(seq, kept, c.batch)
+                for key in acc:
+                    if not fclose(float(tab2[key]), float(tab[key]), 1.0, 1e-8):
+                        raise CaseFail("C13.mixture-joint-ne-sequential", point=key, expected=str(float(tab[key])),
+                                       got=str(float(tab2[key])), order=ints_order)
+                counts("mixture:joint-vs-sequential")
         # log_normalizer attribute
         ln = c12.table_of(g.log_normalizer, list(c.batch), c.batch)
         for p in c.points():
@@ -583,15 +594,10 @@ def stream_mixture(env, rng, counts):
     return ("mixture", str(c.order), tuple(red_ints), c.rank)
 
 
-def stream_plate(env, rng, counts):
-    """Plate sums of Gaussians / mixtures complete whatever the input order, and equal the pointwise sum."""
-    c = gen_full_case(rng, want_rank=lambda dim, r: r.choice([0, 1, dim, dim]), max_dim=5)
-    if not c.batch:
-        order = c.order + [("b", "i", rng.choice([2, 3]))]
-        rng.shuffle(order)
-        c = Case(rng, order, c.rank)
+def _plate_case(env, rng, counts, c, subsets, mixture):
+    """Plate sums over each subset of the integer inputs in ONE call and one input at a time (random order): both
+    must complete and equal the pointwise sum (dense triple, value at a point, Lean `fuse` model for the joint call)."""
     g = c.build()
-    mixture = rng.random() < 0.4
     cur = g
     tdesc = None
     if mixture:
@@ -601,24 +607,88 @@ def stream_plate(env, rng, counts):
         tdesc = dict(inputs=tb, data=tdata.tolist())
     obs = Obs(cur)
     spec = fn_of_obs(obs)
-    step = c12.op_plate(rng, cur, obs, Fn(spec.batch, OrderedDict(obs.reals), spec.at))
-    if step is None:
-        return None
-    hist = [dict(op="gaussian", **c.describe()), dict(op="add_tensor", tensor=tdesc), step["desc"]]
-    try:
-        res = expect_value(counts, "plate", step["run"], True, hist)
-        rdim = sum(numel(sh) for sh in step["spec"].reals.values())
-        exact = not (rdim and step["rank"] > 2 * rdim)
-        c12.check_step(env, rng, res, step, exact, counts)
-    except CaseFail as cf:
-        if cf.name.startswith("C12."):
-            cf.name = "C13." + cf.name[4:]
-        cf.kw.setdefault("witness_history", hist)
-        raise
+    spec = Fn(spec.batch, OrderedDict(obs.reals), spec.at)
+    for red in subsets:
+        step = c12.op_plate(rng, cur, obs, spec, red=list(red))
+        if step is None:
+            continue
+        hist = [dict(op="gaussian", **c.describe()), dict(op="add_tensor", tensor=tdesc), step["desc"]]
+        try:
+            rdim = sum(numel(sh) for sh in step["spec"].reals.values())
+            exact = not (rdim and step["rank"] > 2 * rdim)
+            res = expect_value(counts, "plate", step["run"], True, hist)
+            c12.check_step(env, rng, res, step, exact, counts)
+            if len(red) > 1:
+                seq_order = list(red)
+                rng.shuffle(seq_order)
+                hist[-1] = dict(step["desc"], sequential=seq_order)
+
+                def run_seq():
+                    r = cur
+                    for k in seq_order:
+                        r = r.reduce(ops.add, k)
+                    return r
+                res2 = expect_value(counts, "plate-sequential", run_seq, True, hist)
+                c12.check_step(env, rng, res2, dict(step, model=None), exact, counts)
+                counts("plate:joint-vs-sequential")
+        except CaseFail as cf:
+            if cf.name.startswith("C12."):
+                cf.name = "C13." + cf.name[4:]
+            cf.kw.setdefault("witness_history", hist)
+            raise
+        kinds = "".join(("R" if k in red else "K") for k in c.batch)
+        counts("plate:layout:" + kinds)
     inter = [kind for kind, _, _ in c.order]
     counts("plate:order-" + ("interleaved" if inter != sorted(inter) else "ints-first"))
     counts("plate:" + ("mixture" if mixture else "gaussian"))
-    return ("plate", str(c.order), tuple(step["desc"]["reduced"]), mixture)
+
+
+def _all_subsets(names):
+    return [list(sub) for r in range(1, len(names) + 1) for sub in itertools.combinations(names, r)]
+
+
+def stream_plate(env, rng, counts):
+    """Plate sums of Gaussians / mixtures with 1-4 integer inputs in any interleaving with the real inputs."""
+    c = gen_full_case(rng, want_rank=lambda dim, r: r.choice([0, 1, dim, dim]), max_dim=4,
+                      nb_choices=(1, 2, 2, 3, 3, 3, 4))
+    subs = _all_subsets(list(c.batch))
+    if len(subs) > 3:
+        subs = rng.sample(subs, 3)
+    mixture = rng.random() < 0.4
+    _plate_case(env, rng, counts, c, subs, mixture)
+    return ("plate", str(c.order), str(subs), mixture)
+
+
+def plate_exhaustive(ctx, env):
+    """Every layout of 1-3 plates around one real input x every non-empty subset of plates summed in one call and
+    sequentially (Gaussian and mixture alternating)."""
+    rng = ctx.rng
+    n = 0
+    for nb in (1, 2, 3):
+        plates = BATCH_NAMES[:nb]
+        for pos in range(nb + 1):
+            sizes = [rng.choice([2, 3]) for _ in plates]
+            order = [("b", k, sz) for k, sz in zip(plates, sizes)]
+            order.insert(pos, ("r", "x", rng.choice([(), (2,)])))
+            dim = numel(order[pos][2])
+            for mixture in (False, True):
+                seed = rng.getrandbits(48)
+                r2 = random.Random(seed)
+                c = Case(r2, order, r2.choice([1, dim]))
+                try:
+                    _plate_case(env, r2, ctx.count, c, _all_subsets(plates), mixture)
+                except Declined as e:
+                    ctx.count(f"plate-exhaustive:declined:{e}")
+                    continue
+                except CaseFail as cf:
+                    cf.kw["witness"] = dict(case_seed=seed, stream="plate-exhaustive",
+                                            order_raw=[[o[0], o[1], list(o[2]) if o[0] == "r" else o[2]] for o in order],
+                                            mixture=mixture, history=cf.kw.pop("witness_history", None))
+                    report(ctx, cf)
+                    continue
+                n += 1
+                ctx.case(nontrivial_key=("plate-exhaustive", str(order), mixture))
+    ctx.count("plate-exhaustive:cases", n)
 
 
 def _moment_check(c, dim, obs, approx, tb, tdata):
@@ -670,7 +740,7 @@ def stream_moment(env, rng, counts):
     moments of the dense parameters, and a repeated reduction must reproduce its first answer bit for bit."""
     nreal = rng.choice([1, 1, 2])
     reals = [("r", k, rng.choice([(), (), (2,)])) for k in rng.sample(REAL_NAMES, nreal)]
-    ints = [("b", k, rng.choice([2, 2, 3])) for k in rng.sample(BATCH_NAMES, rng.choice([1, 2, 2]))]
+    ints = [("b", k, rng.choice([1, 2, 2, 3])) for k in rng.sample(BATCH_NAMES, rng.choice([1, 2, 2, 3]))]
     order = ints + reals
     if rng.random() < 0.5:
         rng.shuffle(order)
@@ -688,8 +758,9 @@ def stream_moment(env, rng, counts):
     tdata = dy_array(rng, tuple(n for _, n in tb), pool=[-1, -0.5, 0, 0, 0.5, 1])
     t = Tensor(tdata, OrderedDict((k, Bint[n]) for k, n in tb))
     bn = list(c.batch)
-    subsets = [[k] for k in bn] + ([bn] if len(bn) > 1 else [])
+    subsets = _all_subsets(bn)
     rng.shuffle(subsets)
+    subsets = subsets[:4]
     sequence = subsets + [subsets[0]] + [rng.choice(subsets) for _ in range(2)]
     mix = t + g if rng.random() < 0.5 else None      # one long-lived mixture object (and one Gaussian object)
     snaps = {}
@@ -881,10 +952,28 @@ def replay_case(case_seed, stream=None):
     return False
 
 
+def replay_plate_exhaustive(case_seed, order_raw, mixture):
+    env = Env(c12._Quiet(), use_driver=False)
+    order = [(o[0], o[1], tuple(o[2]) if o[0] == "r" else o[2]) for o in order_raw]
+    r2 = random.Random(case_seed)
+    dim = sum(numel(o[2]) for o in order if o[0] == "r")
+    c = Case(r2, order, r2.choice([1, dim]))
+    try:
+        _plate_case(env, r2, lambda *a, **k: None, c, _all_subsets([o[1] for o in order if o[0] == "b"]), mixture)
+    except CaseFail as cf:
+        print("still fails:", cf.name)
+        return True
+    except Declined:
+        return False
+    return False
+
+
 def replay(ctx, doc):
     w = doc.get("witness") or {}
     if "case_seed" not in w:
         return True
+    if w.get("stream") == "plate-exhaustive":
+        return replay_plate_exhaustive(w["case_seed"], w["order_raw"], w["mixture"])
     return replay_case(w["case_seed"], "history" if w.get("stream") == "history" else None)
 
 
@@ -893,10 +982,14 @@ def report(ctx, cf):
     if cf.name in ("model-ne-spec",):
         ctx.infra_errors.append(f"Lean model disagrees with the oracle: {cf.kw} {w}")
         return
+    if w.get("stream") == "plate-exhaustive":
+        py = (f"import sys\nsys.path.insert(0, {str(VERIF)!r})\nfrom fv.harness import c13\n"
+              f"FAILS = c13.replay_plate_exhaustive({w['case_seed']}, {w['order_raw']!r}, {w['mixture']!r})\n")
+    else:
+        py = PY_TEMPLATE.format(verif=str(VERIF), case_seed=w["case_seed"],
+                                stream="history" if w.get("stream") == "history" else None)
     ctx.fail("input", cf.name, witness=w, expected=cf.kw.get("expected"), got=cf.kw.get("got"),
-             detail={k: str(v) for k, v in cf.kw.items() if k not in ("expected", "got")},
-             python=PY_TEMPLATE.format(verif=str(VERIF), case_seed=w["case_seed"],
-                                      stream="history" if w.get("stream") == "history" else None))
+             detail={k: str(v) for k, v in cf.kw.items() if k not in ("expected", "got")}, python=py)
 
 
 def inverse_stream(ctx, n):
@@ -937,7 +1030,8 @@ def correspond(ctx, use_driver=True, volume=None):
     env = Env(ctx, use_driver)
     if env.use_driver:
         inverse_stream(ctx, 80 if ctx.tier == "quick" else 800)
-    n = volume or (2000 if ctx.tier == "quick" else 22000)
+    plate_exhaustive(ctx, env)
+    n = volume or (1500 if ctx.tier == "quick" else 20000)
     for _ in range(n):
         seed = ctx.rng.getrandbits(48)
         try:
